@@ -364,15 +364,14 @@ theorem allocate_spec {a a' : Alloc} {loc : Loc} {id : Ident} (hi : AInv a)
     · simp; omega
 
 /-- Appending a row to table `a` for a freshly allocated identifier preserves the invariant. -/
-theorem pushRow_inv {w : World} (hi : Inv w) {a a' : Arch} {hd : Nat} (hfa : w.findArch hd = some a)
+theorem pushRow_inv_spec {w : World} (hi : Inv w) {a a' : Arch} {hd : Nat} (hfa : w.findArch hd = some a)
     {al : Alloc} {id : Ident} {cv : List Val}
-    (hal : w.alloc.allocate ⟨hd, a.ids.length⟩ = .ok (al, id))
+    (sp : AllocSpec w.alloc al ⟨hd, a.ids.length⟩ id)
     (hp : a.pushRow cv id = .ok a') :
     Inv { (w.setArch a') with alloc := al, len := w.len + 1 } := by
   obtain ⟨ham, hah⟩ := findArch_some hfa
   subst hah
   have ok := hi.archOk ham
-  have sp := allocate_spec hi.ainv hal
   -- shape of a'
   unfold Arch.pushRow at hp
   by_cases h1 : cv.map (·.ty) ≠ a.mask.comps
@@ -546,6 +545,13 @@ theorem pushRow_inv {w : World} (hi : Inv w) {a a' : Arch} {hd : Nat} (hfa : w.f
           hi.handles_nodup ham rfl
         simp only [List.length_append, List.length_singleton] at hsum
         rw [hi.len]; omega
+
+theorem pushRow_inv {w : World} (hi : Inv w) {a a' : Arch} {hd : Nat} (hfa : w.findArch hd = some a)
+    {al : Alloc} {id : Ident} {cv : List Val}
+    (hal : w.alloc.allocate ⟨hd, a.ids.length⟩ = .ok (al, id))
+    (hp : a.pushRow cv id = .ok a') :
+    Inv { (w.setArch a') with alloc := al, len := w.len + 1 } :=
+  pushRow_inv_spec hi hfa (allocate_spec hi.ainv hal) hp
 
 /-- **`insert` preserves the invariant** (C13): whichever way the table is found (by entity type,
 by identifier bytes, or created) and whether the identifier reuses a freed slot or a new one. -/
